@@ -836,6 +836,17 @@ func (env *SpecEnv) call(x *SExpr) (sval, error) {
 			}
 			return sval{tFalse, types.Typ[types.Bool]}, nil
 		}
+	case "at":
+		// at(NAME, expr): expr evaluated in the state in which site NAME was reached
+		if len(args) == 2 && args[0].Op == "ident" {
+			st, ok := env.f.siteStates[args[0].Name]
+			if !ok {
+				return sval{}, fmt.Errorf("at: site %s was not reached before this point", args[0].Name)
+			}
+			sub := *env
+			sub.cur = st
+			return sub.eval(args[1])
+		}
 	case "sitearg":
 		// sitearg(NAME, i): argument i of the call that is site NAME, as it was
 		// when the call was reached (arbitrary if it was not)
